@@ -356,7 +356,8 @@ class Waiting(State):
         # An interruption is dealt with by the caller (by raising), see ``interrupt``
         result = await self._waiting_future
 
-        if result == NULL:
+        # (NULL on the left: the comparison must not be left to the value, whose ``==`` may say anything or have no truth value)
+        if NULL == result:
             next_state = self.create_state(ProcessState.RUNNING, self.done_callback)
         else:
             next_state = self.create_state(ProcessState.RUNNING, self.done_callback, result)
